@@ -681,6 +681,9 @@ pub struct FrameOpts {
     /// restrict layers to 0..=6 (views panic on layer 7: known finding territory of C04)
     pub valid_layers: bool,
     pub its_first: bool,
+    /// every packet's RDH0 passes the documented pre-check and carries a known system id
+    /// (needed when any packet may become the first packet of a derived file)
+    pub all_rdh0_valid: bool,
 }
 
 impl Default for FrameOpts {
@@ -691,6 +694,7 @@ impl Default for FrameOpts {
             max_payload: 10_000,
             valid_layers: false,
             its_first: false,
+            all_rdh0_valid: false,
         }
     }
 }
@@ -822,6 +826,16 @@ pub fn gen_frame_stream(t: &mut Tape, o: &FrameOpts) -> (Stream, Vec<String>) {
         }
         if o.valid_layers && r.layer() > 6 {
             r.fee_id &= 0x0FFF;
+        }
+        if o.all_rdh0_valid && i > 0 {
+            r.version = version0;
+            r.header_size = 0x40;
+            r.priority = 0;
+            r.rdh0_reserved = 0;
+            if !KNOWN_SYSTEM_IDS.contains(&r.system_id) {
+                r.system_id = sys0;
+            }
+            r.fee_id = fee_id(r.layer() % 7, ((r.fee_id >> 8) & 3) as u8, r.stave() % 48);
         }
         let mut p = Packet::new(r);
         if o.word_payload {
